@@ -673,6 +673,9 @@ class StmtMixin:
         ctx.label = getattr(self, "pending_label", None)
         self.pending_label = None
         k = self.unroll_bound(s)
+        if k is None and isinstance(self.cfg, dict) and self.cfg.get("auto_unroll") and not self.loop_clauses(s, "invariant") \
+                and not self.loop_clauses(s, "preserves") and not self.loop_clauses(s, "exits") and s.get("Cond"):
+            k = int(self.cfg["auto_unroll"])
         if k is not None:
             return self.unrolled_for(s, st, k, ctx)
         self.check_invariants(s, st, "entry")
@@ -793,6 +796,10 @@ class StmtMixin:
             r = self.try_fold_summary(s, st, xv, n, xt, ctx)
             if r is not NotImplemented:
                 return r
+            au = self.cfg.get("auto_unroll") if isinstance(self.cfg, dict) else None
+            if au and not self.loop_clauses(s, "preserves"):
+                # retry mode (driver): an unannotated loop is unrolled a few times under an unwinding obligation
+                return self.unrolled_range(s, st, int(au), ctx, xv, n, xt)
         itkey = ("iter", id(s))
         self.syn_types[itkey] = self.int_type
         st.vars[itkey] = idx(0)
